@@ -10,6 +10,8 @@ reference vlib/refmodels/dssp_ref.py (written from Kabsch & Sander 1983).
   B  bridge motifs  n = 10: every set of <= 2 (3) of the paper's four two-bond bridge motifs at every (i,j),
                     plus <= 1 turn bond (i+k -> i, k = 3,4,5)
   D  helix space    n = 10: every set of <= 4 (6) turn bonds (i+k -> i, k = 3,4,5): H/G/I priority, pi over alpha
+  E  sheet x helix  n = 10: <= 2 bridge motifs together with 1..2 pairs of consecutive n-turn bonds (minimal
+                    3-, 4-, 5-helices): H > B,E > G > I on residues that are bridge partners
   C  ladder pairs   n = 12 (thorough: also triples on n = 10): every set of <= 2 ladder templates (parallel /
                     antiparallel, both H-bond registers, 1..3 consecutive bridges at every position)
   A, D: x chain break in {none, before residue 1..n-1} x one incomplete residue in {none, each residue not
@@ -37,10 +39,10 @@ MANIFEST = {
     "technique": "exhaustive enumeration of bounded H-bond pattern spaces through a kernel seam of dssp.cpp against a "
                  "from-the-paper DSSP rule engine, plus end-to-end comparison on structures",
     "text": "Rule engine of dssp.cpp (beta sheets/ladders/bulges, helices/turns, bends) called through a ctypes seam "
-            "(vlib/kern/dsspseam.cpp, compiled from the tree under test) on every member of four finite pattern spaces: "
+            "(vlib/kern/dsspseam.cpp, compiled from the tree under test) on every member of five finite pattern spaces: "
             "(A) all sets of <=3 (thorough <=4) admissible backbone H-bonds on n=5..8 residues, (B) all sets of <=2 (<=3) "
             "bridge motifs + <=1 turn bond on n=10, (C) all sets of <=2 ladder templates on n=12 (thorough also <=3 on n=10), "
-            "(D) all sets of <=4 (<=6) turn bonds on n=10; "
+            "(D) all sets of <=4 (<=6) turn bonds on n=10, (E) <=2 bridge motifs x 1..2 minimal-helix turn pairs on n=10; "
             "each x chain-break position x one incomplete residue x slot order x CA trace (straight, corner at k, coil). "
             "Oracle: independent set-based DSSP reference written from Kabsch & Sander 1983 (vlib/refmodels/dssp_ref.py), "
             "compared exactly per residue. End to end: 11 files of tests/data, one constructed structure, and deterministic variants (perturbed frames, removed "
@@ -66,22 +68,38 @@ MARGIN_RAD = 1e-5
 MARGIN_DEG = math.degrees(MARGIN_RAD)
 WILD = ord("*")
 
-_L = None
-_SO = None
+_L = None          # ctypes lib or False (nothing builds); attributes .has_rules / .has_api
+_LERR = None       # why the rule-engine seam is unavailable (None if it is available)
 
 
 def _lib(repo):
-    global _L, _SO
-    if _L is None:
-        _SO = build.build_kernlib("dsspseam", repo, "rel")
-        L = ctypes.CDLL(_SO)
-        vp, ci = ctypes.c_void_p, ctypes.c_int
-        L.dsspseam_rules.argtypes = [vp, vp, vp, vp, vp, ci, ci, vp]
-        L.dsspseam_rules_batch.argtypes = [ci, ci, vp, ci, vp, vp, vp, vp]
-        L.dsspseam_hbonds.argtypes = [vp, vp, vp, vp, ci, ci, vp, vp]
-        L.dsspseam_dssp.argtypes = [vp, vp, vp, vp, vp, ci, ci, ci, vp]
-        _L = L
-    return _L
+    """Kernel seam, optional.  dsspseam.cpp calls static functions of dssp.cpp by name; if an internal refactoring
+    of the tree changes them the seam no longer compiles — that is not a property violation, so the rule-engine
+    layer is skipped (with a WARNING and an assumption) instead of failing the check.  The two sub-checks of the
+    end-to-end layer that use the extern C entry points fall back to dsspseam_api.cpp, and are skipped too if
+    even that does not build."""
+    global _L, _LERR
+    if _L is not None:
+        return _L or None
+    vp, ci = ctypes.c_void_p, ctypes.c_int
+    L = None
+    for name, rules in (("dsspseam", True), ("dsspseam_api", False)):
+        try:
+            L = ctypes.CDLL(build.build_kernlib(name, repo, "rel"))
+            if rules:
+                L.dsspseam_rules.argtypes = [vp, vp, vp, vp, vp, ci, ci, vp]
+                L.dsspseam_rules_batch.argtypes = [ci, ci, vp, ci, vp, vp, vp, vp]
+            L.dsspseam_hbonds.argtypes = [vp, vp, vp, vp, ci, ci, vp, vp]
+            L.dsspseam_dssp.argtypes = [vp, vp, vp, vp, vp, ci, ci, ci, vp]
+            L.has_rules = rules
+            break
+        except (RuntimeError, OSError, AttributeError) as e:
+            L = None
+            if rules:
+                msg = [ln for ln in str(e).splitlines() if "error" in ln]
+                _LERR = (msg[0] if msg else str(e).splitlines()[0])[:300]
+    _L = L if L is not None else False
+    return L
 
 
 def _p(a):
@@ -166,6 +184,27 @@ def space_D(n, K):
         for c in itertools.combinations(tb, m):
             out.append(mask_of(n, c))
     return out, len(tb)
+
+
+def space_E(n, quick):
+    """Sheet x helix overlap: bridge motifs together with PAIRS of consecutive n-turn bonds (minimal n-helices,
+    n = 3, 4, 5): quick (<= 1 motif x <= 2 pairs) + (2 motifs x 1 pair); thorough <= 2 motifs x <= 2 pairs
+    (at least one pair each)."""
+    mot = []
+    for i in range(1, n - 1):
+        for j in range(i + 3, n - 1):
+            for kind in ("P1", "P2", "A1", "A2"):
+                mot.append(mask_of(n, motif(kind, i, j)))
+    tp = [mask_of(n, [(i - 1 + k, i - 1), (i + k, i)]) for k in (3, 4, 5) for i in range(1, n - k)]
+    msets = {0: [0], 1: mot, 2: [a | b for a, b in itertools.combinations(mot, 2)]}
+    psets = {1: tp, 2: [a | b for a, b in itertools.combinations(tp, 2)]}
+    combos = [(0, 1), (0, 2), (1, 1), (1, 2), (2, 1)] + ([] if quick else [(2, 2)])
+    seen = set()
+    for nm, np_ in combos:
+        for a in msets[nm]:
+            for b in psets[np_]:
+                seen.add(a | b)
+    return sorted(seen), len(mot), len(tp)
 
 
 def ladder_templates(n):
@@ -256,7 +295,7 @@ def _expected(b, bends_t):
 
 def _rules_chunk(item):
     space, n, masks, seed, repo = item
-    full_product = space in ("A", "D")   # A, D: break x incomplete; B, C: break + incomplete (one of the two at a time)
+    full_product = space in ("A", "D")   # A, D: break x incomplete; B, C, E: break + incomplete (one of the two at a time)
     L = _lib(repo)
     names, xyz, kap = traces(n, seed)
     T = len(names)
@@ -587,11 +626,12 @@ def _check_traj(L, label, vkind, tr, st, records, frames_independent=True):
         if any(d in missing or a in missing for d, a in bonds):
             viol("e2e|incomplete-residue-in-hbond", "kabsch_sander reports a bond of an incomplete residue")
         # the pattern dssp() uses == the pattern kabsch_sander reports
-        hbo = np.empty((n, 2), dtype=np.int32)
+        hbo = np.full((n, 2), -1, dtype=np.int32)
         heo = np.empty((n, 2), dtype=np.float32)
-        L.dsspseam_hbonds(_p(xyz[f]), _p(nco), _p(ca), _p(pro), xyz.shape[1], n, _p(hbo), _p(heo))
+        if L is not None:
+            L.dsspseam_hbonds(_p(xyz[f]), _p(nco), _p(ca), _p(pro), xyz.shape[1], n, _p(hbo), _p(heo))
         inner = sorted((int(d), int(a)) for d in range(n) for a in hbo[d] if a >= 0)
-        if inner != bonds:
+        if L is not None and inner != bonds:
             viol("e2e|pattern-inside-dssp-differs-from-kabsch_sander",
                  "bonds only in dssp(): %s, only in kabsch_sander: %s" % (sorted(set(inner) - set(bonds))[:5],
                                                                           sorted(set(bonds) - set(inner))[:5]))
@@ -644,6 +684,8 @@ def _check_traj(L, label, vkind, tr, st, records, frames_independent=True):
             if not np.array_equal(one[0], full[f]):
                 viol("e2e|frame-independence", "compute_dssp(traj)[%d] != compute_dssp(traj[%d])" % (f, f))
     # dssp() on independently prepared arrays == compute_dssp
+    if L is None:
+        return
     sec = np.zeros(F * n, dtype=np.uint8)
     L.dsspseam_dssp(_p(xyz), _p(nco), _p(ca), _p(pro), _p(chain), F, xyz.shape[1], n, _p(sec))
     raw = sec.reshape(F, n)
@@ -758,11 +800,13 @@ def _chunks(xs, size):
 
 def run(ctx):
     quick = ctx.quick
-    _lib(ctx.repo)
+    L = _lib(ctx.repo)
+    rules_ok = L is not None and L.has_rules
     items = []
     for f in FILES + sorted(SYNTH):
         if f in SYNTH or os.path.exists(os.path.join(ctx.repo, "tests/data", f)):
             items.append(("e2e", f, quick, ctx.seed, ctx.repo))
+    n_e2e_items = len(items)
     spaces = {}
     K = 3 if quick else 4
     for n in (8, 7, 6, 5, 4, 3, 2):
@@ -780,6 +824,10 @@ def run(ctx):
     spaces["D:n=10,<=%d of %d turn bonds" % (KD, ntb)] = len(ms)
     for c in _chunks(ms, 500):
         items.append(("rules", "D", 10, c, ctx.seed, ctx.repo))
+    ms, nmot, ntp = space_E(10, quick)
+    spaces["E:n=10,<=2 of %d motifs x 1..2 of %d minimal-helix turn pairs" % (nmot, ntp)] = len(ms)
+    for c in _chunks(ms, 800):
+        items.append(("rules", "E", 10, c, ctx.seed, ctx.repo))
     ms, ntpl = space_C(12, 2)
     spaces["C:n=12,<=2 of %d ladder templates" % ntpl] = len(ms)
     for c in _chunks(ms, 600):
@@ -789,7 +837,15 @@ def run(ctx):
         spaces["C:n=10,<=3 of %d ladder templates" % ntpl] = len(ms)
         for c in _chunks(ms, 1000):
             items.append(("rules", "C3", 10, c, ctx.seed, ctx.repo))
-    # big items first
+    if not rules_ok:
+        print("WARNING kernel seam dsspseam does not build against this tree; rule-engine pattern spaces skipped", flush=True)
+        ctx.assume("kernel seam vlib/kern/dsspseam.cpp does not build against this tree (%s): the rule-engine pattern spaces "
+                   "A-E were NOT enumerated, only the end-to-end layer (public API) ran" % _LERR)
+        if L is None:
+            ctx.assume("dsspseam_api.cpp does not build either: the sub-checks 'pattern inside dssp() == kabsch_sander' and "
+                       "'compute_dssp == dssp() on independently prepared arrays' were skipped")
+        items = items[:n_e2e_items]
+        spaces = {k: 0 for k in spaces}
     res = ctx.pmap(_work, items)
 
     tot = {"cases": 0, "rows": 0, "evaluations": 0, "nontrivial": 0, "inadmissible": 0, "dropped_linkorder": 0,
@@ -843,13 +899,14 @@ def run(ctx):
     cov = {
         "evaluations": tot["evaluations"] + e_frames,
         "distinct_nontrivial": tot["nontrivial"] + sum(s["nontrivial_frames"] for s in e2e),
-        "rule": "layer 1: every member of the pattern spaces A, B, C, D (distinct bond sets by construction/dedup) x chain "
+        "rule": "layer 1: every member of the pattern spaces A, B, C, D, E (distinct bond sets by construction/dedup) x chain "
                 "break position x one incomplete residue among the residues without bonds x slot order x CA trace, seam output "
                 "compared exactly with the reference; a case (bond set, break, incomplete residue) is non-trivial if the "
                 "reference assigns at least one of H,B,E,G,I,T. layer 2: every frame of every file variant; non-trivial if the "
                 "reference has a letter other than ' ' and 'S'",
         "samples": samples + [{"e2e_file": s["file"], "variants": s["variants"][:12]} for s in e2e[:2]],
-        "exhaustive": True,
+        "exhaustive": bool(rules_ok),
+        "rule_engine_seam_available": bool(rules_ok), "c_api_seam_available": L is not None,
         "spaces_distinct_bond_sets": spaces,
         "per_space": per_space,
         "rule_cases": tot["cases"], "rule_rows_incl_slot_orders": tot["rows"], "rule_evaluations": tot["evaluations"],
@@ -879,6 +936,9 @@ def run(ctx):
 
 def replay(ctx, rep):
     L = _lib(ctx.repo)
+    if rep["kind"] == "rules" and (L is None or not L.has_rules):
+        print("WARNING kernel seam dsspseam does not build against this tree; rule-engine replay not executed")
+        return True
     if rep["kind"] == "rules":
         n = rep["n"]
         obs = []
